@@ -143,6 +143,8 @@ def prepare(case):
     P["deg"] = bool(case.get("deg")) or case.get("unit") == "deg"
     if grid and case["fn"] == "delta" and frac(case["t"]).denominator > 1024:
         P["sl"] = max(P["sl"], TINY)      # non-dyadic rel_tol: delta*rel_tol rounds
+    if any(op[0] == "transform" for op in case.get("ops", [])) and (need_cang or need_tri):
+        P["sl"] = max(P["sl"], TINY)      # exactly rotated matrices: products may round differently in the last bit
     if case.get("flavour") in ("int", "f32") and (need_cang or need_tri):
         P["sl"] = max(P["sl"], TINY)      # the matrices are rounded: angle thresholds hit exactly are not compared
     if grid and (need_cang or need_tri):
@@ -255,6 +257,10 @@ def realisation(case, P):
 
 
 # ----------------------------------------------------------------------------- implementation
+class HistoryStateDiffers(Exception):
+    pass
+
+
 FLAVOURS = ["tuple", "stack", "aliased", "readonly", "fortran", "view", "int", "f32"]
 
 
@@ -333,6 +339,8 @@ def run_impl(case):
         out["pairs"] = out["ends"] = "E_FILTER"
     except metrics.MetricsException:
         out["pairs"] = out["ends"] = "E_METRICS"
+    except HistoryStateDiffers:
+        out["pairs"] = out["ends"] = "SKIP"
     except Exception as e:      # noqa: BLE001
         out["pairs"] = out["ends"] = f"EXC:{type(e).__name__}: {str(e)[:120]}"
     if uses(case)[0] and len(poses) >= 1:
@@ -342,6 +350,60 @@ def run_impl(case):
         except Exception as e:      # noqa: BLE001
             out["acc_exc"] = f"EXC:{type(e).__name__}: {str(e)[:120]}"
     return out
+
+
+ROT90 = {0: lambda p, m: rot90_vec(p, 0, m), 1: lambda p, m: rot90_vec(p, 1, m), 2: lambda p, m: rot90_vec(p, 2, m)}
+
+
+def rot90_vec(p, axis, m):
+    """rotate an integer vector by m*90 degrees about a coordinate axis (exact)"""
+    i, j = [(1, 2), (2, 0), (0, 1)][axis]
+    q = list(p)
+    for _ in range(m % 4):
+        q[i], q[j] = -q[j], q[i]
+    return q
+
+
+def rot90_matrix(axis, m):
+    """exact 4x4 rotation by m*90 degrees (entries 0, +-1)"""
+    T = np.eye(4)
+    for c in range(3):
+        e = [0.0, 0.0, 0.0]
+        e[c] = 1.0
+        T[:3, c] = rot90_vec(e, axis, m)
+    return T
+
+
+def apply_ops_spec(init, ops):
+    """what the in-place history does to the pose values, computed here (exact on the grid)"""
+    pos, rk, axis = [list(p) for p in init["pos"]], list(init["rk"]), init.get("axis", 2)
+    for op in ops:
+        if op[0] == "scale":
+            pos = [[x * op[1] for x in p] for p in pos]
+        elif op[0] == "reduce":
+            pos, rk = [pos[k] for k in op[1]], [rk[k] for k in op[1]]
+        elif op[0] == "transform":      # left multiplication by a rotation of m*90 degrees about `axis` + translation
+            pos = [[a + b for a, b in zip(rot90_vec(p, axis, op[1]), op[2])] for p in pos]
+            rk = [k + 4 * op[1] for k in rk]
+    return {"pos": [[float(x) for x in p] for p in pos], "rk": rk, "axis": axis}
+
+
+def materialise(case):
+    """history cases carry the initial trajectory + in-place operations; the judged pose values are derived"""
+    if "init" in case:
+        case = {**case, **apply_ops_spec(case["init"], case["ops"])}
+    return case
+
+
+def apply_op_evo(traj, op, axis):
+    if op[0] == "scale":
+        traj.scale(op[1])
+    elif op[0] == "reduce":
+        traj.reduce_to_ids(list(op[1]))
+    elif op[0] == "transform":
+        T = rot90_matrix(axis, op[1])
+        T[:3, 3] = op[2]
+        traj.transform(T)
 
 
 def decoy_poses(case):
@@ -391,6 +453,24 @@ def run_rpe(case, seq):
     if not case.get("t_omitted"):
         kw["rel_delta_tol"] = case["t"]
     m = metrics.RPE(**kw)
+    if "init" in case:
+        # the SAME trajectory objects are processed, modified in place, processed again ... (L1):
+        # only the last call is judged here (every prefix of the history is a case of its own)
+        init = case["init"]
+        sel, other = PosePath3D(poses_se3=build_poses(init)), PosePath3D(poses_se3=decoy_poses(init))
+        data = (sel, other) if case.get("from_ref") else (other, sel)
+        for op in case["ops"]:
+            try:
+                m.process_data(data)
+            except (filters.FilterException, metrics.MetricsException):
+                pass
+            apply_op_evo(sel, op, init.get("axis", 2))
+            apply_op_evo(other, op, (init.get("axis", 2) + 1) % 3 if op[0] != "transform" else init.get("axis", 2))
+        want = np.array([p[:3, 3] for p in build_poses(case)])
+        if sel.positions_xyz.shape != want.shape or not np.array_equal(sel.positions_xyz, want):
+            raise HistoryStateDiffers("evo's in-place operations left other positions than the harness expects")
+        m.process_data(data)
+        return list(m.delta_ids), int(len(m.error))
     for spec in case.get("prev", []):
         a, b = PosePath3D(poses_se3=build_poses(spec)), PosePath3D(poses_se3=decoy_poses(spec))
         try:
@@ -444,6 +524,14 @@ def judge(ctx, case, P, impl, outs):
         if sl > 0 and (abs(P["delta"] - b) <= sl * 200 or abs(P["delta"]) <= sl):
             comparable = False
     rpe = case.get("via") == "rpe"
+    if impl.get("ends") == "SKIP":
+        ctx.count("dist", "history:state-after-in-place-ops-differs(not judged, C08)")
+        ctx.skipped += 1
+        ctx.record(case, False)
+        return
+    if "init" in case:
+        ctx.count("dist", "rpe-same-objects-modified-in-place:" + "+".join(op[0] for op in case["ops"])
+                  + (":from_ref" if case.get("from_ref") else ":from_est"))
     if rpe:
         model_ends = model if isinstance(model, str) else [j for _, j in model]
         if comparable and impl["ends"] != model_ends:
@@ -1012,11 +1100,59 @@ def rpe_cases(ctx, r, L, INC):
            "pos": grid_positions(r, [1, 1, 1]), "delta": 1.0, "t": 0.1}
 
 
+def history_cases(ctx, r, L, INC):
+    """L1 with the same objects: one RPE object, the same two trajectory objects, modified in place between
+    the process_data calls (scale by 2 or 1/2, reduce_to_ids, left transform by a 90-degree rotation);
+    every prefix of a history is a case, each judged on the pose values of its last call"""
+    th = ctx.thorough
+    for _ in range(160 if not th else 1500):
+        n = r.randint(3, 9)
+        lens = [r.choice(L + [1, 1, 2]) for _ in range(n - 1)]
+        rk = [r.randint(0, 15)]
+        for _ in range(n - 1):
+            rk.append(rk[-1] + r.choice(INC + [1, 1, 2]))
+        init = {"pos": [[2.0 * x for x in p] for p in grid_positions(r, lens)], "rk": rk, "axis": r.randint(0, 2)}
+        ops, halved, cur_n = [], False, n
+        for _ in range(r.randint(1, 3)):
+            kind = r.choice(["scale", "scale", "reduce", "reduce", "transform"])
+            if kind == "scale":
+                f = 2.0 if halved or r.random() < 0.5 else 0.5
+                halved = halved or f == 0.5
+                ops.append(["scale", f])
+            elif kind == "reduce" and cur_n > 2:
+                ids = sorted(r.sample(range(cur_n), r.randint(2, cur_n - 1)))
+                cur_n = len(ids)
+                ops.append(["reduce", ids])
+            else:
+                ops.append(["transform", r.randint(1, 3), [float(2 * r.randint(-3, 3)) for _ in range(3)]])
+        if any(op[0] == "reduce" for op in ops):      # any subset must keep integer step lengths: poses on a line
+            e, x0 = r.choice(AX), [2.0 * r.randint(-3, 3) for _ in range(3)]
+            acc = [0] + [sum(lens[:k + 1]) for k in range(n - 1)]
+            init["pos"] = [[a + 2.0 * d * b for a, b in zip(x0, e)] for d in acc]
+        u = r.choice(["m", "m", "m", "rad", "deg", "f"])
+        c = {"kind": "grid", "fn": "delta", "via": "rpe", "unit": u, "all": r.random() < 0.5, "from_ref": r.random() < 0.6,
+             "t": r.choice([0.0, 0.5, 0.1, 0.25]), "init": init}
+        if u == "m":
+            c["delta"] = r.choice(half_grid(r, min(2 * sum(lens), 12) + 1, 40))
+        elif u == "f":
+            c["delta"] = float(r.randint(1, 4))
+        elif u == "rad":
+            du = r.choice(half_grid(r, 8, 30))
+            c.update({"delta": du * np.pi / 8, "dm": str(Fraction(du))})
+        else:
+            c["delta"] = r.choice(half_grid(r, 8, 30)) * 22.5
+        for k in range(1, len(ops) + 1):
+            yield {**c, "ops": ops[:k]}
+
+
 def gen_cases(ctx):
     """all streams; a third of the exact-grid cases hand the poses over in another flavour (L3), a third of
     the class-route cases reuse the RPE object / build the trajectory another way (L1, L4)"""
     r2 = random.Random(f"C10-decor/{ctx.seed}")
     for c in gen_base(ctx):
+        if "init" in c:
+            yield c
+            continue
         if c["kind"] in ("grid", "fgrid") and len(c["pos"]) >= 1 and r2.random() < 0.3:
             fl = r2.choice(FLAVOURS)
             if flavour_ok(c, fl):
@@ -1169,6 +1305,7 @@ def gen_base(ctx):
     yield from fgrid_cases(ctx, r, L, INC)
     yield from rpe_cases(ctx, r, L, INC)
     yield from structured_cases(ctx, r, L, INC)
+    yield from history_cases(ctx, r, L, INC)
     for u in ("other",):
         yield {"kind": "grid", "fn": "delta", "unit": u, "all": False, "pos": grid_positions(r, [1, 1, 1]), "delta": 1.0, "t": 0.1}
     # ---- random stream
@@ -1221,6 +1358,13 @@ def gen_base(ctx):
 
 # ----------------------------------------------------------------------------- shrinking / driver
 def shrink(case):
+    if "init" in case:      # histories: drop operations from the front instead of poses
+        if len(case["ops"]) > 1:
+            c = {k: v for k, v in case.items() if k not in ("pos", "rk")}
+            c["init"] = apply_ops_spec(case["init"], case["ops"][:1])
+            c["ops"] = case["ops"][1:]
+            yield c
+        return
     n = len(case["pos"])
     if n > 2:
         for cut in sorted({n // 2, max(n // 4, 1), 1}, reverse=True):
@@ -1235,6 +1379,7 @@ def shrink(case):
 
 def evaluate(ctx, cases):
     preps, impls, lines, spans = [], [], [], []
+    cases = [materialise(c) for c in cases]
     for c in cases:
         P = prepare(c)
         ml = model_lines(c, P)
